@@ -1,5 +1,5 @@
 //@file src/half_connection/frame_queue.rs
-//@props C15 C03
+//@props C15 C03 C12
 #[cfg(test)]
 mod verif_native {
     use super::*;
@@ -44,6 +44,30 @@ mod verif_native {
             fq.acknowledge_group(frame::AckGroup { base_id: 0, bitfield: 0b10, nonce }, None);
             assert!(fq.get_feedback(6000).is_none(), "ack group covering a forgotten frame produced feedback");
             assert!(!fq.frame_log.get_frame(1).unwrap().acked);
+        }
+    }
+
+    // cover of the TRUSTED contracts of FrameLog::push / FrameLog::drain (frame_queue.vspec; pinned): ids are 32-bit ring
+    // positions, the log may straddle the wrap 0xFFFFFFFF -> 0
+    #[test]
+    fn verif_t_framelog_push_drain_across_wrap() {
+        for &base in [0u32, 7, 0xFFFF_FFFC, 0xFFFF_FFFF].iter() {
+            let mut log = FrameLog::new(base);
+            for k in 0..8u32 {
+                log.push(Entry { size: 10 + k, send_time_ms: 100 + k as u64, fragment_refs: Vec::new().into_boxed_slice(), nonce: k % 2 == 0, rate_limited: false, acked: false });
+                assert_eq!(log.next_id(), base.wrapping_add(k + 1));
+                assert_eq!(log.len(), k + 1);
+            }
+            for d in 0..=8u32 {
+                let mut l2 = FrameLog::new(base);
+                for k in 0..8u32 { l2.push(Entry { size: 10 + k, send_time_ms: 100 + k as u64, fragment_refs: Vec::new().into_boxed_slice(), nonce: false, rate_limited: false, acked: false }); }
+                l2.drain(base.wrapping_add(d));
+                assert_eq!(l2.base_id(), base.wrapping_add(d), "drain moves the base to the given id");
+                assert_eq!(l2.len(), 8 - d, "drain removes exactly the ids before it (base {:#x}, d {})", base, d);
+                assert_eq!(l2.next_id(), base.wrapping_add(8));
+                for k in d..8 { assert_eq!(l2.get_frame(base.wrapping_add(k)).unwrap().size, 10 + k, "remaining entries keep their ids"); }
+                assert!(l2.get_frame(base.wrapping_add(8)).is_none());
+            }
         }
     }
 }
